@@ -473,7 +473,13 @@ class Compiler(object):
 
             mask = int(bin(reversed_mask)[2:][::-1], 2)
             number_of_bits = reversed_mask.bit_length()
+        elif default.startswith('0x') and 'named-bits' not in resolved_member:
+            number_of_bits = 4 * (len(default) - 2)
+
+            if number_of_bits > 0:
+                mask = int(default, 16)
         elif default.startswith('0x'):
+            # Trailing zero bits are not significant with named bits.
             if len(default) % 2 == 1:
                 default += '0'
 
@@ -486,7 +492,6 @@ class Compiler(object):
             number_of_bits = 0
         else:
             mask = int(default, 2)
-            mask >>= lowest_set_bit(mask)
             number_of_bits = len(default) - 2
 
         if number_of_bits > 0:
